@@ -566,20 +566,21 @@ Qed.
 (* ---------- the pacing monitor accepts every model trace ---------- *)
 
 Definition Inv (c : config) (s : pstate) (m : mon) : Prop :=
-  (m_ok m = okmode s) /\ (m_idx m = idx s) /\ (m_fresh m = true -> m_idx m = 0) /\
+  (m_ok m = okmode s) /\ (m_idx m = idx s) /\
+  (m_fresh m = true -> m_idx m = 0 /\ (m_last m <> None -> m_wait m = bo c 0)) /\
   (m_delay m = fdelay s) /\
   match ph s with
-  | PBackoff T => exists t0, m_last m = Some t0 /\ T = t0 + bo c (m_idx m) /\ t0 <= now s
-  | PConnecting T B => m_last m = Some T /\ B = bo c (m_idx m)
+  | PBackoff T => exists t0, m_last m = Some t0 /\ T = t0 + m_wait m /\ t0 <= now s
+  | PConnecting T B => m_last m = Some T /\ B = m_wait m
   | _ => m_last m = None
   end.
 
 (* the monitor after a dial at time t made with index i (the model's [dial]) *)
 Definition mon_after (c : config) (m : mon) (i : Z) (fresh : bool) (t : Z) : mon :=
-  if m_ok m then mkm (m_ok m) 0 None true (m_dials m + 1) (m_delay m)
+  if m_ok m then mkm (m_ok m) 0 None true (m_dials m + 1) (m_delay m) (bo c i)
   else mkm (m_ok m) i
            (Some (if m_delay m <=? 0 then t else t + fail_after c i (m_delay m)))
-           fresh (m_dials m + 1) (m_delay m).
+           fresh (m_dials m + 1) (m_delay m) (bo c i).
 
 Lemma dial_Inv : forall c m i fresh t ok fd st,
   m_ok m = ok -> m_delay m = fd -> (fresh = true -> i = 0) ->
@@ -587,36 +588,52 @@ Lemma dial_Inv : forall c m i fresh t ok fd st,
 Proof.
   intros c m i fresh t ok fd st Hok Hfd Hfr. unfold dial, mon_after. cbn [okmode now idx fdelay sticky].
   rewrite Hok, Hfd. destruct ok.
-  - unfold Inv. cbn. repeat split; auto.
-  - destruct (fd <=? 0) eqn:E; unfold Inv; cbn.
-    + repeat split; auto. exists t. repeat split; auto. lia.
-    + repeat split; auto.
+  - unfold Inv. cbn. split; [reflexivity|]. split; [reflexivity|]. split; [|split; reflexivity].
+    intros _. split. reflexivity. intro H. exfalso. apply H. reflexivity.
+  - assert (Hf3 : fresh = true -> i = 0 /\ (Some (if fd <=? 0 then t else t + fail_after c i fd) <> None -> bo c i = bo c 0)).
+    { intro Hf. split. exact (Hfr Hf). intros _. rewrite (Hfr Hf). reflexivity. }
+    destruct (fd <=? 0) eqn:E; unfold Inv; cbn.
+    + split; [reflexivity|]. split; [reflexivity|]. split; [exact Hf3|]. split; [reflexivity|].
+      exists t. split. reflexivity. split. reflexivity. lia.
+    + split; [reflexivity|]. split; [reflexivity|]. split; [exact Hf3|]. split; [reflexivity|]. split; reflexivity.
 Qed.
 
 Lemma dial_now : forall c s, now (dial c s) = now s.
 Proof. intros c s. unfold dial. destruct (okmode s); [reflexivity|]. destruct (fdelay s <=? 0); reflexivity. Qed.
 
+Lemma Inv_ext : forall c s s' m, Inv c s m -> okmode s' = okmode s -> idx s' = idx s ->
+  fdelay s' = fdelay s -> ph s' = ph s -> now s <= now s' -> Inv c s' m.
+Proof.
+  intros c s s' m (I1 & I2 & I3 & I5 & I4) H1 H2 H3 H4 H5. unfold Inv. rewrite H1, H2, H3, H4.
+  split; [exact I1|]. split; [exact I2|]. split; [exact I3|]. split; [exact I5|].
+  destruct (ph s); try exact I4. destruct I4 as (t0 & L & T & N). exists t0. split. exact L. split. exact T. lia.
+Qed.
+
 Lemma advance_sim : forall fuel c target s m s' ds,
   Inv c s m -> now s <= target -> advance fuel c target s = Some (s', ds) ->
   exists m', mon_dials c m false ds = (m', true, true) /\ Inv c s' m'.
 Proof.
-  induction fuel as [|f IH]; intros c target s m s' ds (I1 & I2 & I3 & I5 & I4) Hn Ha; cbn [advance] in Ha.
-  - destruct (ph s) as [|t b|t|] eqn:P.
-    + injection Ha as <- <-. exists m. split. reflexivity. unfold Inv. cbn. rewrite ?P. repeat split; auto.
-    + destruct (t <=? target) eqn:E; [discriminate Ha|]. injection Ha as <- <-. exists m. split. reflexivity.
-      unfold Inv. cbn. rewrite ?P. repeat split; auto; apply I4.
-    + destruct (t <=? target) eqn:E; [discriminate Ha|]. injection Ha as <- <-. exists m. split. reflexivity.
-      unfold Inv. cbn. rewrite ?P. destruct I4 as (t0 & L & T & N). repeat split; auto. exists t0. repeat split; auto. lia.
-    + injection Ha as <- <-. exists m. split. reflexivity. unfold Inv. cbn. rewrite ?P. repeat split; auto.
-  - destruct (ph s) as [|t b|t|] eqn:P.
-    + injection Ha as <- <-. exists m. split. reflexivity. unfold Inv. cbn. rewrite ?P. repeat split; auto.
-    + (* a slow dial fails at t: the timer is armed from t *)
+  induction fuel as [|f IH]; intros c target s m s' ds Hinv Hn Ha; cbn [advance] in Ha.
+  - assert (Hstay : forall s0, s0 = mkp target (okmode s) (idx s) (ph s) (fdelay s) (sticky s) -> Inv c s0 m).
+    { intros s0 ->. apply (Inv_ext c s); auto. }
+    destruct (ph s) as [|t b|t|] eqn:P.
+    + injection Ha as <- <-. exists m. split. reflexivity. apply Hstay. reflexivity.
+    + destruct (t <=? target); [discriminate Ha|]. injection Ha as <- <-. exists m. split. reflexivity. apply Hstay. reflexivity.
+    + destruct (t <=? target); [discriminate Ha|]. injection Ha as <- <-. exists m. split. reflexivity. apply Hstay. reflexivity.
+    + injection Ha as <- <-. exists m. split. reflexivity. apply Hstay. reflexivity.
+  - assert (Hstay : forall s0, s0 = mkp target (okmode s) (idx s) (ph s) (fdelay s) (sticky s) -> Inv c s0 m).
+    { intros s0 ->. apply (Inv_ext c s); auto. }
+    destruct Hinv as (I1 & I2 & I3 & I5 & I4).
+    destruct (ph s) as [|t b|t|] eqn:P.
+    + injection Ha as <- <-. exists m. split. reflexivity. apply Hstay. reflexivity.
+    + (* a slow dial fails at t: the timer is armed from t with the attempt's own backoff *)
       destruct I4 as [L B].
       destruct (t <=? target) eqn:E.
       * apply Z.leb_le in E.
         refine (IH c target _ m s' ds _ _ Ha); [|cbn; exact E].
-        unfold Inv. cbn. repeat split; auto. exists t. repeat split; auto; try lia. all: try (rewrite B; reflexivity).
-      * injection Ha as <- <-. exists m. split. reflexivity. unfold Inv. cbn. rewrite ?P. repeat split; auto.
+        unfold Inv. cbn. split; [exact I1|]. split; [exact I2|]. split; [exact I3|]. split; [exact I5|].
+        exists t. split. exact L. split. rewrite B. reflexivity. lia.
+      * injection Ha as <- <-. exists m. split. reflexivity. apply Hstay. reflexivity.
     + destruct I4 as (t0 & L & T & N).
       destruct (t <=? target) eqn:E.
       * apply Z.leb_le in E.
@@ -629,13 +646,13 @@ Proof.
         destruct (IH c target _ _ s2 ds2 Hi Hn1 E2) as (m' & Hm & Hinv).
         exists m'. split; [|exact Hinv].
         cbn [mon_dials]. rewrite L. cbn [negb andb].
-        replace (t0 + bo c (m_idx m) <=? t) with true by (symmetry; apply Z.leb_le; lia).
+        replace (t0 + m_wait m <=? t) with true by (symmetry; apply Z.leb_le; lia).
         replace (if m_fresh m then t <=? t0 + bo c 0 else true) with true.
-        2: { destruct (m_fresh m) eqn:Fr; [|reflexivity]. rewrite (I3 eq_refl) in T. symmetry. apply Z.leb_le. lia. }
+        2: { destruct (m_fresh m) eqn:Fr; [|reflexivity]. destruct (I3 eq_refl) as [_ Hw].
+             rewrite Hw in T by (rewrite L; discriminate). symmetry. apply Z.leb_le. lia. }
         unfold mon_after in Hm. rewrite Hm. reflexivity.
-      * injection Ha as <- <-. exists m. split. reflexivity.
-        unfold Inv. cbn. rewrite ?P. repeat split; auto. exists t0. repeat split; auto. lia.
-    + injection Ha as <- <-. exists m. split. reflexivity. unfold Inv. cbn. rewrite ?P. repeat split; auto.
+      * injection Ha as <- <-. exists m. split. reflexivity. apply Hstay. reflexivity.
+    + injection Ha as <- <-. exists m. split. reflexivity. apply Hstay. reflexivity.
 Qed.
 
 Lemma take_n_app : forall ds r, take_n (length ds) (ds ++ r) = Some (ds, r).
@@ -648,59 +665,74 @@ Proof.
   rewrite Nat2Z.id, take_n_app. reflexivity.
 Qed.
 
+Ltac inv5 := unfold Inv; cbn; split; [|split; [|split; [|split]]].
+Ltac nofresh := let H := fresh in intro H; discriminate H.
+Ltac none_last I3 := let Hf := fresh in let H := fresh in
+  intro Hf; split; [apply I3; exact Hf | intro H; exfalso; apply H; reflexivity].
+
 (* one pacing op: the monitor accepts the model's observation and stays in step *)
 Lemma pstep_sim : forall c s m op s' o, Inv c s m -> pstep c s op = Some (s', o) ->
   exists m', mon_step c m op o = Some (m', true, true) /\ Inv c s' m'.
 Proof.
-  intros c s m op s' o (I1 & I2 & I3 & I5 & I4) Hp.
+  intros c s m op s' o Hinv Hp.
   unfold pstep in Hp. unfold mon_step.
   destruct (pop_of op) as [[md|dt| | | |h]|]; [..|discriminate Hp].
   - (* [2; m] *)
     injection Hp as <- <-. rewrite split_pobs_pobs. cbn [mon_dials].
-    eexists. split. reflexivity. unfold Inv. cbn. repeat split; auto.
+    destruct Hinv as (I1 & I2 & I3 & I5 & I4).
+    eexists. split. reflexivity. inv5; [reflexivity | exact I2 | exact I3 | exact I5 | exact I4].
   - (* [3; dt] *)
     destruct ((dt <? 0) || (60 * base c <? dt)) eqn:G; [discriminate Hp|].
     apply orb_false_elim in G. destruct G as [G _]. apply Z.ltb_ge in G.
     destruct (advance adv_fuel c (now s + dt) s) as [[s2 ds]|] eqn:A; [|discriminate Hp].
     injection Hp as <- <-.
-    assert (Hi : Inv c s m) by (unfold Inv; auto).
     assert (Hle : now s <= now s + dt) by lia.
-    destruct (advance_sim _ _ _ _ _ _ _ Hi Hle A) as (m' & Hm & Hinv).
-    exists m'. split; [|exact Hinv]. rewrite split_pobs_pobs, Hm. reflexivity.
+    destruct (advance_sim _ _ _ _ _ _ _ Hinv Hle A) as (m' & Hm & Hinv').
+    exists m'. split; [|exact Hinv']. rewrite split_pobs_pobs, Hm. reflexivity.
   - (* [4] *)
-    destruct (ph s) as [|t b|t|] eqn:P; injection Hp as <- <-; rewrite split_pobs_pobs.
-    + rewrite I4. cbn [mon_dials]. eexists. split. reflexivity. unfold Inv. cbn. rewrite ?P. repeat split; auto; discriminate.
-    + destruct I4 as [L B]. rewrite L. cbn [mon_dials]. exists m. split. reflexivity.
-      unfold Inv. rewrite ?P. repeat split; auto.
-    + destruct I4 as (t0 & L & T & N). rewrite L. cbn [mon_dials m_last m_ok m_idx m_fresh m_dials m_delay].
-      rewrite ?L. cbn [negb andb].
+    destruct Hinv as (I1 & I2 & I3 & I5 & I4).
+    destruct (ph s) as [|t b|t|] eqn:P.
+    + injection Hp as <- <-. rewrite split_pobs_pobs. cbn [mon_dials]. eexists. split. reflexivity.
+      inv5; [exact I1 | reflexivity | nofresh | exact I5 | rewrite ?P; exact I4].
+    + (* in flight: only the index is zeroed; the armed wait is kept *)
+      injection Hp as <- <-. rewrite split_pobs_pobs. cbn [mon_dials]. eexists. split. reflexivity.
+      inv5; [exact I1 | reflexivity | nofresh | exact I5 | rewrite ?P; exact I4].
+    + injection Hp as <- <-. rewrite split_pobs_pobs.
+      destruct I4 as (t0 & L & T & N). cbn [mon_dials m_last m_ok m_idx m_fresh m_dials m_delay m_wait].
+      rewrite L. cbn [negb andb].
       replace (t0 <=? now s) with true by (symmetry; apply Z.leb_le; exact N).
-      set (m0 := mkm (m_ok m) 0 (Some t0) false (m_dials m) (m_delay m)).
+      set (m0 := mkm (m_ok m) 0 (Some t0) false (m_dials m) (m_delay m) (m_wait m)).
       exists (mon_after c m0 0 false (now s)). split. reflexivity.
       apply dial_Inv; auto; discriminate.
-    + rewrite I4. cbn [mon_dials]. eexists. split. reflexivity. unfold Inv. cbn. rewrite ?P. repeat split; auto; discriminate.
+    + injection Hp as <- <-. rewrite split_pobs_pobs. cbn [mon_dials]. eexists. split. reflexivity.
+      inv5; [exact I1 | reflexivity | nofresh | exact I5 | rewrite ?P; exact I4].
   - (* [5] *)
     destruct (ph s) as [|t b|t|] eqn:P; injection Hp as <- <-; rewrite split_pobs_pobs; cbn [mon_dials];
       unfold state_code; cbn [ph]; rewrite ?P.
-    + cbn [Z.eqb]. eexists. split. reflexivity. unfold Inv. cbn. rewrite ?P. repeat split; auto.
-    + destruct I4 as [L B]. destruct (sticky s); cbn [Z.eqb Pos.eqb]; exists m; (split; [reflexivity|]);
-        unfold Inv; rewrite ?P; repeat split; auto.
-    + cbn [Z.eqb Pos.eqb]. exists m. split. reflexivity. unfold Inv. rewrite ?P. repeat split; auto.
-    + cbn [Z.eqb]. eexists. split. reflexivity. unfold Inv. cbn. repeat split; auto.
+    + cbn [Z.eqb]. destruct Hinv as (I1 & I2 & I3 & I5 & I4). rewrite P in I4.
+      eexists. split. reflexivity.
+      inv5; [exact I1 | exact I2 | none_last I3 | exact I5 | rewrite ?P; reflexivity].
+    + destruct (sticky s); cbn [Z.eqb Pos.eqb]; exists m; (split; [reflexivity|]); exact Hinv.
+    + cbn [Z.eqb Pos.eqb]. exists m. split. reflexivity. exact Hinv.
+    + cbn [Z.eqb]. destruct Hinv as (I1 & I2 & I3 & I5 & I4). rewrite P in I4.
+      eexists. split. reflexivity.
+      inv5; [exact I1 | exact I2 | none_last I3 | exact I5 | reflexivity].
   - (* [6] *)
     destruct (ph s) as [|t b|t|] eqn:P; injection Hp as <- <-; rewrite split_pobs_pobs.
-    + cbn [mon_dials]. rewrite I4. cbn [negb andb].
+    + destruct Hinv as (I1 & I2 & I3 & I5 & I4). rewrite P in I4.
+      cbn [mon_dials]. rewrite I4. cbn [negb andb].
       exists (mon_after c m (m_idx m) (m_fresh m) (now s)). split. reflexivity.
       replace s with (mkp (now s) (okmode s) (idx s) PIdle (fdelay s) (sticky s)) at 1
         by (destruct s; cbn in P; rewrite P; reflexivity).
-      rewrite <- I2. apply dial_Inv; auto.
-    + cbn [mon_dials]. exists m. split. reflexivity. unfold Inv. rewrite ?P. repeat split; auto; try apply I4.
-    + cbn [mon_dials]. exists m. split. reflexivity. unfold Inv. rewrite ?P. repeat split; auto; try apply I4.
-    + cbn [mon_dials]. exists m. split. reflexivity. unfold Inv. rewrite ?P. repeat split; auto; try apply I4.
+      rewrite <- I2. apply dial_Inv; auto. intro Hf. apply I3. exact Hf.
+    + cbn [mon_dials]. exists m. split. reflexivity. exact Hinv.
+    + cbn [mon_dials]. exists m. split. reflexivity. exact Hinv.
+    + cbn [mon_dials]. exists m. split. reflexivity. exact Hinv.
   - (* [7; h] *)
     destruct (h <? 0); [discriminate Hp|]. injection Hp as <- <-.
     rewrite split_pobs_pobs. cbn [mon_dials].
-    eexists. split. reflexivity. unfold Inv. cbn. repeat split; auto.
+    destruct Hinv as (I1 & I2 & I3 & I5 & I4).
+    eexists. split. reflexivity. inv5; [exact I1 | exact I2 | exact I3 | reflexivity | exact I4].
 Qed.
 
 (* ---------- every model trace satisfies the clauses ---------- *)
@@ -803,15 +835,20 @@ Proof.
     + cbn in Ho, Hi. cbn [nth_error]. apply (IH model impl Hrest i op n rb d Ho Hp Hn Hi).
 Qed.
 
-(* ResetConnectBackoff: the index is 0 afterwards (it is skipped while a dial is in
-   flight), and a pending wait is cut short (the sub-channel dials at once) *)
-Lemma reset_idx : forall c s s' o, (forall t b, ph s <> PConnecting t b) ->
-  pstep c s [4] = Some (s', o) -> idx s' = 0.
+(* ResetConnectBackoff: the index is 0 afterwards, and a pending wait is cut short (the
+   sub-channel dials at once) *)
+Lemma reset_idx : forall c s s' o, pstep c s [4] = Some (s', o) -> idx s' = 0.
 Proof.
-  intros c s s' o Hc H. cbn in H. destruct (ph s) as [|t b|t|] eqn:P; injection H as <- _; try reflexivity.
-  - exfalso. eapply Hc. reflexivity.
-  - unfold dial. cbn. destruct (okmode s); [reflexivity|]. destruct (fdelay s <=? 0); reflexivity.
+  intros c s s' o H. cbn in H. destruct (ph s) as [|t b|t|] eqn:P; injection H as <- _; try reflexivity.
+  unfold dial. cbn. destruct (okmode s); [reflexivity|]. destruct (fdelay s <=? 0); reflexivity.
 Qed.
+(* ... but a reset made while the attempt is still in flight does not touch the wait that
+   this attempt arms when it fails: the phase (failure time and backoffFor) is unchanged,
+   nothing is dialled *)
+Lemma reset_in_flight : forall c s t b, ph s = PConnecting t b ->
+  pstep c s [4] = Some (mkp (now s) (okmode s) 0 (PConnecting t b) (fdelay s) (sticky s),
+                        [0; if sticky s then 3 else 1]).
+Proof. intros c s t b H. cbn. rewrite H. unfold pobs, state_code. cbn. reflexivity. Qed.
 Lemma reset_dials_now : forall c s t, ph s = PBackoff t -> okmode s = false -> fdelay s <= 0 ->
   pstep c s [4] = Some (mkp (now s) false 0 (PBackoff (now s + bo c 0)) (fdelay s) true, [1; now s; 3]).
 Proof.
@@ -1056,7 +1093,7 @@ Proof.
     rewrite Ha. eexists _, _. split. reflexivity. exact Hg'.
   - destruct (ph s) as [|t b|t|] eqn:P.
     + eexists _, _. split. reflexivity. unfold good. cbn. rewrite ?P. exact I.
-    + eexists _, _. split. reflexivity. exact Hg.
+    + eexists _, _. split. reflexivity. unfold good in *. cbn. rewrite P in Hg. exact Hg.
     + eexists _, _. split. reflexivity. apply dial_good. exact Hp.
     + eexists _, _. split. reflexivity. unfold good. cbn. rewrite ?P. exact I.
   - destruct (ph s) as [|t b|t|] eqn:P; eexists _, _; (split; [reflexivity|]); try exact Hg.
